@@ -428,8 +428,10 @@ def walk(case, lowest):
 
 
 def who(case, o):
+    """the name a failure is filed under: the method, not the class or the depth of the section (the replay's description has
+    both) - a broken setter fails under every method of every class, and every class of failure is shrunk on its own"""
     if o[0] == "w":
-        return "%s%s.%s" % (case["T"], ".section()" if o[1] else "", o[2])
+        return "io.%s" % o[2]
     return "output.%s" % o[2]
 
 
@@ -502,13 +504,55 @@ def describe(case):
             % (case["T"], FK_NAMES[case["fk"]], "ANSI-capable" if case["sa"] else "plain")) + "; ".join(d(o) for o in case["ops"])
 
 
+def refs(o):
+    """-> (I/O numbers, output numbers) a call names"""
+    if o[0] in ("w", "q", "v", "ia", "fm", "in", "sec"):
+        return [o[1]], []
+    return [], [o[1]]
+
+
+def drop_creation(ops, p):
+    """ops without the creating call at position p, the later objects renumbered; None when a later call names what it made"""
+    n_out, n_io = 2, 1
+    for o in ops[:p]:
+        if o[0] == "sec":
+            n_out, n_io = n_out + 2, n_io + 1
+        elif o[0] == "osec":
+            n_out += 1
+    o = ops[p]
+    if o[0] == "ost":
+        return number_streams(ops[:p] + ops[p + 1:])
+    made_out = [n_out, n_out + 1] if o[0] == "sec" else [n_out]
+    made_io = [n_io] if o[0] == "sec" else []
+    rest = []
+    for x in ops[p + 1:]:
+        ios, outs = refs(x)
+        if any(i in made_io for i in ios) or any(j in made_out for j in outs):
+            return None
+        x = list(x)
+        if ios and ios[0] > n_io and made_io:
+            x[1] -= 1
+        if outs and outs[0] > made_out[-1]:
+            x[1] -= len(made_out)
+        rest.append(x)
+    return ops[:p] + rest
+
+
 def shrink(case):
-    """drop one call that creates nothing (the numbering of the objects stays)"""
+    """the shortest failing prefix that ends in a writing call; then that call alone among the writes; then one call less
+    (a creating call only when nothing later names what it made: the later objects are renumbered)"""
     ops = case["ops"]
-    # first: cut the tail, then single calls
-    for n in (len(ops) // 2, len(ops) - 1):
-        if 0 < n < len(ops):
-            yield dict(case, ops=ops[:n])
+    writes = [i for i, o in enumerate(ops) if o[0] in ("w", "ow")]
+    for i in writes[:-1][:150]:
+        yield dict(case, ops=ops[:i + 1])
+    if writes and writes[-1] + 1 < len(ops):
+        yield dict(case, ops=ops[:writes[-1] + 1])
+    if len(writes) > 1:
+        yield dict(case, ops=[o for i, o in enumerate(ops) if o[0] not in ("w", "ow") or i == writes[-1]])
     for i in range(len(ops)):
-        if ops[i][0] not in ("sec", "osec", "ost"):
+        if ops[i][0] in ("sec", "osec", "ost"):
+            cut = drop_creation(ops, i)
+            if cut is not None:
+                yield dict(case, ops=cut)
+        else:
             yield dict(case, ops=ops[:i] + ops[i + 1:])
